@@ -35,15 +35,15 @@ def make_jobs(ctx, files, root, deep=False):
     jobs = []
     if not deep:
         for f in files:
-            jobs.append(dict(src=f, rel=os.path.relpath(f, root), subs=None, seed=0, times='all' if th else 'quick',
+            jobs.append(dict(src=f, rel=os.path.relpath(f, root), subs=None, seed=0, times='all',
                              skips=64 if th else 16, addr_stride=1, tok_stride=1))
-    plan = [('directed15', 2 if th else 1), ('directed-neg2', 2 if th else 1), ('first-rows', 6 if th else 1),
-            ('layout', 8 if th else 1), ('random', 38 if th else 3)]
+    plan = [('directed15', 2 if th else 1), ('directed-neg2', 2 if th else 1), ('first-rows', 6 if th else 2),
+            ('layout', 8 if th else 3), ('random', 38 if th else 10)]
     for f in files:
         rel = os.path.relpath(f, root)
         for mode, n in plan:
             for k in range(n):
-                jobs.append(dict(src=f, rel=rel, subs=mode, seed=ctx.rng.randrange(1 << 30), times='all' if th else 'quick',
+                jobs.append(dict(src=f, rel=rel, subs=mode, seed=ctx.rng.randrange(1 << 30), times='all',
                                  skips=0, addr_stride=37, tok_stride=23, only_changed=True))
     return jobs
 
@@ -106,7 +106,7 @@ def run_pool(jobs):
 
 
 def run(ctx):
-    ctx.rule = ('all 37 shipped listing files (tests/listing/**, 6 simulators) x result times (quick: first/middle/last; thorough: all) x '
+    ctx.rule = ('all 37 shipped listing files (tests/listing/**, 6 simulators) x every result time x '
                 'every exposed table x every row; skip_tables subsets (quick: first 16 by size; thorough: all <= 2^5); value-perturbed copies in '
                 'which printed numbers are rewritten in place by numbers of the same printed form and field width (other digits, zero, negative / '
                 'positive, no-letter 3-digit exponent, back to E form), chosen at random (1..60 cells per copy, first/last column biased) and '
